@@ -224,6 +224,11 @@ def model (op : String) (args : List (List UInt8)) : Option String := do
 
 def hasAny (s : Str) (cs : String) : Bool := s.any (fun c => cs.toList.contains c)
 
+/-- a version text that can be written after `p<op>` in a pattern and after `p-` in a name
+    without changing how either is split (the precondition of the `api.*` ops) -/
+def apiOkW (w : Str) : Bool := !(w.any fun c => c == '-' || c == '<' || c == '>' || c == '{' || c == '}')
+def apiOkV (v : Str) : Bool := apiOkW v && v.head? != some '='
+
 /-- C01 on `dewey.vcmp` / `api.vcmp`: the rule's verdicts -/
 def oracleC01 (op : String) (a : Nat → Option Str) (impl mdl : String) : String × String :=
   match op with
@@ -247,7 +252,8 @@ def oracleC01 (op : String) (a : Nat → Option Str) (impl mdl : String) : Strin
   | "dewey.vcmp" | "api.vcmp" =>
     match a 0, a 1 with
     | some w, some v =>
-      if !(S.InDomain w && S.InDomain v) then ("na", "out-of-domain")
+      if op == "api.vcmp" && !(apiOkW w && apiOkV v) then ("na", "not-expressible-through-the-api")
+      else if !(S.InDomain w && S.InDomain v) then ("na", "out-of-domain")
       else
         let exp := bits fun o => S.verdict w o v
         let vw := S.version w
@@ -264,10 +270,12 @@ def oracleC01 (op : String) (a : Nat → Option Str) (impl mdl : String) : Strin
 
 def nthBits (s : String) (k : Nat) : List Char := (s.toList.drop (4 * k)).take 4
 
+
 /-- C03 on `api.laws`: relations between the implementation's own verdicts -/
 def oracleC03 (op : String) (a : Nat → Option Str) (impl : String) : String × String :=
   match op with
   | "api.laws" =>
+    if !([a 0, a 1, a 2].all fun x => match x with | some v => apiOkV v | none => false) then ("na", "not-expressible-through-the-api") else
     match impl.splitOn "|" with
     | [m, two] =>
       if m.length != 36 || m.toList.contains 'e' || two.toList.contains 'e' then ("fail:compile-error-in-laws", "")
@@ -507,14 +515,18 @@ def oracleC18 (op : String) (a : Nat → Option Str) (impl : String) : String ×
     -- name's PKGBASE never matches, and  PKGBASE>=0  always does
     match a 1 with
     | some name =>
+      -- the probe is  BASE>=0  or  BASE<99999999  with an operator-free BASE; anything else
+      -- (mutated probes) is judged only for "compiles iff the model's grammar accepts it"
+      match deweyNew p with
+      | .error _ => if impl == "err" then ("ok", "") else ("fail:should-reject", "")
+      | .ok d =>
       let pb := p.takeWhile fun c => c != '<' && c != '>'
-      let rest := p.drop pb.length
       match S.splitLastDash name with
-      | some (base, _) =>
+      | some (base, ver) =>
         if pb == base then
-          (if rest == ['>', '=', '0'] then
-            (if impl == "1" then ("ok", "nt") else ("fail:matcher-split-disagrees", "nt"))
-           else ("na", "bound-decides"))
+          -- same base: the verdict is the bounds' verdict on the text after the LAST dash
+          let exp := d.matches_.all fun m => deweyCmp (deweyVersion ver) m.1 m.2
+          (if impl == b exp then ("ok", "nt") else ("fail:matcher-split-disagrees", "nt"))
         else (if impl == "0" then ("ok", "nt") else ("fail:matched-with-a-base-that-is-not-PKGBASE", "nt"))
       | none => if impl == "0" then ("ok", "") else ("fail:matched-a-name-without-version", "")
     | none => ("na", "")
